@@ -26,7 +26,7 @@ COMPONENTS = {'real': ['kawin.precipitation.* (full KWN model)', 'kawin.solver.*
 
 def plan(tier):
     if tier == 'quick':
-        return dict(runs=400, batch=4, hard_timeout=600, soft_timeout=150)
+        return dict(runs=600, batch=4, hard_timeout=600, soft_timeout=150)
     return dict(runs=20000, batch=8, hard_timeout=1800, soft_timeout=300)
 
 
